@@ -1,5 +1,6 @@
 """C24 — the natural-language endpoint only returns statements the engine would run as reads."""
 from ..cfg import Body, name_matches
+from .. import inline as inl_
 from ..report import where
 from ..facts import in_module
 from .. import orderdom as od
@@ -21,6 +22,9 @@ def classifier_verdict(F, path):
     problems = []
     pq = b.calls_to(["parser::parse_query"])
     if not pq:
+        via = _via_write_helper(F, b, strparams)
+        if via is not None:
+            return via
         return False, "%s never parses the statement (a prefix/substring test cannot classify `MATCH (n) DETACH DELETE n`)" % path, []
     a = pq[0].args[0]
     og = b.origins(a[1][0], through_calls=id_through) if a[0] != "k" else []
@@ -61,6 +65,79 @@ def classifier_verdict(F, path):
     if ndefs == 0:
         problems.append("no return value definition found")
     return (not problems), "; ".join(problems) if problems else "returns only false or !plan(parse(stmt)).is_write", [path]
+
+
+def _helper_is_planned_write(F, hp):
+    """`fn(&str) -> Option<bool>` whose every Some(x) is plan(parse(stmt)).is_write and which is None otherwise"""
+    r = F.fns.get(hp)
+    m = F.mir(hp) if r else None
+    if m is None or "Option<bool>" not in r["sig"].rsplit("->", 1)[-1]:
+        return False, "not fn(&str) -> Option<bool>"
+    b = Body(m, r)
+    strparams = [i for i in range(1, b.argc + 1) if "str" in b.local_ty(i) or "String" in b.local_ty(i)]
+    pq = b.calls_to(["parser::parse_query"])
+    plans = b.calls_to(["QueryPlanner::plan", "QueryPlanner::plan_query", "QueryPlanner::plan_with_params"])
+    if len(strparams) != 1 or not pq or not plans:
+        return False, "does not parse and plan its argument"
+    a = pq[0].args[0]
+    og = b.origins(a[1][0], through_calls=id_through) if a[0] != "k" else []
+    if [o for o in og if o[0] == "call"] or not any(o[0] == "arg" and o[1] in strparams for o in og):
+        return False, "parse_query is not applied to the unmodified statement text"
+    pa = plans[0].args[1] if len(plans[0].args) > 1 else None
+    ogp = b.origins(pa[1][0], through_calls=lambda c: [0] if c.path.rsplit("::", 1)[-1] in ("ok", "branch", "unwrap", "expect") else None) if pa and pa[0] != "k" else []
+    if not any(o[0] in ("call", "via") and o[1].bb == pq[0].bb for o in ogp):
+        return False, "the planned statement is not the parse result"
+    for d in b.defs().get(0, []):
+        if d[0] == "call":
+            if d[2].path.endswith("from_residual"):
+                continue            # `?` on an Option: None
+            return False, "return value produced by %s" % d[2].path
+        rv = d[4]
+        if rv[0] == "agg" and rv[1].endswith("Option::None"):
+            continue
+        if rv[0] == "agg" and rv[1].endswith("Option::Some") and rv[2] and rv[2][0][0] != "k":
+            src = od.base_place(b, rv[2][0])
+            if src and any(x.endswith("ExecutionPlan.is_write") for x in src[1]):
+                base_og = b.origins(src[0], through_calls=lambda c: [0] if c.path.rsplit("::", 1)[-1] in ("ok", "branch", "unwrap", "expect") else None)
+                if any(o[0] in ("call", "via") and o[1].bb == plans[0].bb for o in base_og):
+                    continue
+        return False, "a returned value is neither None nor Some(plan.is_write) of this statement's plan"
+    return True, "Some(plan(parse(stmt)).is_write) or None"
+
+
+def _via_write_helper(F, b, strparams):
+    """the classifier delegates to a local `planned as a write?` helper: accepted iff every value it returns is
+    `false` or the negation of the helper's Some payload, the helper being applied to the unmodified statement"""
+    for c in b.calls():
+        if c.path not in F.fns or not c.args or c.args[0][0] == "k":
+            continue
+        okh, whyh = _helper_is_planned_write(F, c.path)
+        if not okh:
+            continue
+        og = b.origins(c.args[0][1][0], through_calls=id_through)
+        if [o for o in og if o[0] == "call"] or not any(o[0] == "arg" and o[1] in strparams for o in og):
+            return False, "the write-classifying helper is not applied to the unmodified statement text", []
+        problems = []
+        for d in b.defs().get(0, []):
+            if d[0] != "stmt":
+                problems.append("return value produced by %s" % d[2].path)
+                continue
+            rv = d[4]
+            if rv[0] == "use" and rv[1][0] == "k":
+                if rv[1][1].strip() != "const false":
+                    problems.append("returns constant true on some path")
+                continue
+            if rv[0] == "un" and rv[1] == "Not" and rv[2][0] != "k":
+                src = od.base_place(b, rv[2])
+                if src and src[0] == c.dest[0]:
+                    continue
+                if c.dest[0] in od.chain_locals(b, rv[2]):
+                    continue
+            problems.append("a returned value is neither `false` nor the negated answer of %s" % c.path.rsplit("::", 1)[-1])
+        if problems:
+            return False, "; ".join(problems), [c.path]
+        return True, "returns only false or !%s(stmt), and %s is %s" % (c.path.rsplit("::", 1)[-1], c.path.rsplit("::", 1)[-1], whyh), [c.path]
+    return None
 
 
 def clause_classifier_covers(F, planner_fn, via):
@@ -193,6 +270,30 @@ def _calls_pred(F, bb, og, pred):
     return False
 
 
+def _set_when_pred(F, bb, flag_op, pred):
+    """`if .. && pred(..) { flag = true }` — the flag is assigned `true` on the true side of a test of the operator's
+    own mutation predicate (or of a planner function that returns that predicate's answer)"""
+    wrappers = {pred} | {p for p, r in F.fns.items() if in_module(p, "samyama::query::executor::planner::") and pred in r["calls"] and r["sig"].rsplit("->", 1)[-1].strip() == "bool"}
+    fl = od.chain_locals(bb, flag_op)
+    sets = [i for i, j, pl, rv, line, exp in bb.stmts() if pl[0] in fl and not pl[1] and rv[0] == "use" and rv[1][0] == "k" and rv[1][1].strip() == "const true"]
+    if not sets:
+        return False
+    for c in bb.calls():
+        if c.path not in wrappers or c.target is None:
+            continue
+        sb_, t = bb.switch_on(c.dest[0], c.target)
+        if t is None:
+            continue
+        zero = [tgt for v, tgt in t[2] if v == "0"]
+        if not zero:
+            continue
+        true_reach = bb.reachable(t[3], avoid={sb_})
+        # on the true side the flag is set before anything else can happen: the set block is the true target itself
+        if any(i == t[3] or (i in true_reach and bb.dominates(t[3], i) and i not in bb.reachable(zero[0], avoid={sb_})) for i in sets):
+            return True
+    return False
+
+
 def _pat_variants(p):
     k = p.get("k")
     if k == "variant":
@@ -205,6 +306,11 @@ def _pat_variants(p):
     if k == "bind" and p.get("sub"):
         return _pat_variants(p["sub"])
     return []
+
+
+def _plan_ctor(p):
+    return p.startswith("samyama::query::executor::planner::ExecutionPlan::") and "{closure" not in p
+_plan_ctor._key = "ExecutionPlan-ctors"
 
 
 def check_planner_marks_writes(ctx, F, cg, RULE):
@@ -262,7 +368,9 @@ def check_planner_marks_writes(ctx, F, cg, RULE):
             for q in callers:
                 work.append((q, via + [p]))
         for p, via in sorted(sites):
-            bb = Body(F.mir(p), planner_fns[p])
+            # constructor helpers of ExecutionPlan (`ExecutionPlan::mutating(root, ..)`) are read in place: the literal
+            # they build appears in the site with the flag they set
+            bb = Body(inl_.inlined_mir(F, p, _plan_ctor, 2) or F.mir(p), planner_fns[p])
             key = "%s|%s" % (short, p.replace("samyama::query::executor::planner::", ""))
             built_by = ctor if len(via) == 1 else {via[-1]}
             scalls = [c for c in bb.calls() if c.path in built_by]
@@ -297,7 +405,9 @@ def check_planner_marks_writes(ctx, F, cg, RULE):
                     else:
                         og = bb.origins(o[1][0])
                         pred = conditional.get(op)
-                        if pred and _calls_pred(F, bb, og, pred):
+                        if pred and not _calls_pred(F, bb, og, pred) and _set_when_pred(F, bb, o, pred):
+                            verdicts.append((True, "%s mutates only when %s(name) holds, and the flag is set to true on the true side of that test (line %d)" % (short, pred.rsplit("::", 1)[-1], line), line))
+                        elif pred and _calls_pred(F, bb, og, pred):
                             verdicts.append((True, "%s mutates only when %s(name) holds, and the flag is `.. || %s(..)` (line %d)" % (short, pred.rsplit("::", 1)[-1], pred.rsplit("::", 1)[-1], line), line))
                         elif [x for x in og if x[0] == "call"]:
                             ok2, why2 = clause_classifier_covers(F, p, via)
